@@ -470,6 +470,23 @@ def replay(ctx, rp):
 GEN_CFGS = ['gen_mempooldata.json', 'gen_raw.json', 'gen_hashclear.json', 'gen_treeclear.json', 'gen_poolmerge.json']
 
 
+def check_poolconc_copy(ctx):
+    """coq/PoolConcC09.v must still be C09's coq/PoolConc.v: byte comparison modulo my one-line header comment and the library name
+    (C03 <-> C09).  The `pc` tie runs THIS copy against the real MemPool; if C09's model moves on, the copy has to follow (or the
+    divergence has to be a decision): a difference breaks a tie stage."""
+    mine_p = os.path.join(ctx.cdir, 'PoolConcC09.v'); theirs_p = os.path.join(ctx.root, 'props', 'C09', 'coq', 'PoolConc.v')
+    try:
+        mine = open(mine_p).read(); theirs = open(theirs_p).read()
+        first, rest = mine.split('\n', 1)
+        ok = first.startswith('(* COPIED VERBATIM from props/C09/coq/PoolConc.v') and first.rstrip().endswith('*)') and rest.replace('C03', 'C09') == theirs
+        why = '' if ok else 'props/C03/coq/PoolConcC09.v differs from props/C09/coq/PoolConc.v (modulo header line and library name)'
+    except Exception as e:
+        ok = False; why = 'cannot compare PoolConcC09.v with C09/coq/PoolConc.v: %s' % str(e)[:200]
+    ctx.tie_obligations.append({'name': 'PoolConcC09.v is a verbatim copy of props/C09/coq/PoolConc.v (bytes, modulo header line and library name)', 'ok': ok})
+    ctx.stage('corr:poolconc-copy', ok, why)
+    return ok
+
+
 def gen_facts(ctx):
     """T-gen (AST facts, astfacts.py): the statements of the catch blocks / branches / small functions where this project's release-discipline
     defects lived are read off the clang AST of the CURRENT headers (ctx.repo) and written to coq/Gen_C03Facts.v; coq/GenTie.v interprets them
@@ -512,6 +529,7 @@ def run(ctx):
     if not ok_facts:
         ctx.stage('regen', False, 'AST facts (see tie obligations)')
     ctx.prove()
+    check_poolconc_copy(ctx)
     harness, exes = build_all(ctx)
     harness2 = exes.pop('tie2', None)
     if harness is None or harness2 is None or any(v is None for v in exes.values()):
